@@ -16,6 +16,7 @@ type Config struct {
 	Delay    bool   `json:"delay,omitempty"`    // WithRenderDelay, released by a "release" step
 	Notifier bool   `json:"notifier,omitempty"` // WithShutdownNotifier
 	NoOutput bool   `json:"no_output,omitempty"`
+	AlsoAuto int    `json:"also_auto,omitempty"` // manual refresh only: WithAutoRefresh given too, 1 = before, 2 = after WithManualRefresh (manual refresh wins either way)
 	UserWG   bool   `json:"user_wg,omitempty"` // WithWaitGroup: Wait also waits for a user wait group released ~1 ms after Wait was called
 }
 
@@ -29,6 +30,7 @@ type DecorSpec struct {
 	Listener bool     `json:"listener,omitempty"`
 	Ewma     bool     `json:"ewma,omitempty"`
 	SlowUs   int      `json:"slow_us,omitempty"` // Decor sleeps this long (widens race windows)
+	Disabled bool     `json:"disabled,omitempty"` // switched off with decor.OnCondition(d, false): every wrapper must pass the nil on, the bar does not get it
 }
 
 // BarSpec describes one bar; it is created by an "add" step.
@@ -40,7 +42,7 @@ type BarSpec struct {
 	NoPop        bool        `json:"nopop,omitempty"`
 	QueueAfter   int         `json:"after"` // index of the predecessor bar, -1 = none
 	Decors       []DecorSpec `json:"decors,omitempty"`
-	Filler       string      `json:"filler,omitempty"` // bar (default) | spinner | nop | tag
+	Filler       string      `json:"filler,omitempty"` // bar (default) | spinner | spinnerv (frames of different widths) | nop | tag
 	ExtRows      int         `json:"ext_rows,omitempty"`
 	ExtRev       bool        `json:"ext_rev,omitempty"`
 	ExtNoNL      bool        `json:"ext_nonl,omitempty"`    // extender output ends without newline
